@@ -201,6 +201,40 @@ class ExtractSelected(LibModel):
         fn, it = args
         return [(st, Obj('filtered', {'fn': fn, 'of': it}))]
 
+    def f_type(self, eng, st, args, kwargs, node):
+        (o,) = args
+        if isinstance(o, ZV) and o.ty == 'val':
+            return [(st, Obj('typeof', {'of': o.t}))]
+        raise OutOfSubset("type()", node)
+
+    def compare(self, eng, st, op, a, b):
+        if isinstance(op, (ast.Is, ast.IsNot, ast.Eq, ast.NotEq)):
+            x, y = (a, b) if isinstance(a, Obj) else (b, a)
+            if isinstance(x, Obj) and x.kind == 'typeof' and isinstance(y, C) and isinstance(y.v, Ref) and y.v.kind == 'class':
+                r = z3.Function('exact_type', Z.Str, Z.Val, Z.B)(str_const(y.v.name), x.data['of'])
+                return ZV(z3.Not(r) if isinstance(op, (ast.IsNot, ast.NotEq)) else r, 'bool')
+        return None
+
+    def listcomp(self, eng, st, e):
+        # a list comprehension over the user's iterable consumes it here and now (C07: domains are consumed lazily)
+        g = e.generators[0]
+        its = eng.eval(g.iter, st)
+        if len(its) == 1 and isinstance(its[0][1], Obj) and its[0][1].kind == 'userdomain':
+            s2 = its[0][0].clone()
+            s2.ghost['materialised'] = True
+            return [(s2, Obj('materialised_list'))]
+        return super().listcomp(eng, st, e)
+
+    def f_list(self, eng, st, args, kwargs, node):
+        if args and isinstance(args[0], Obj) and args[0].kind in ('userdomain', 'filtered'):
+            st = st.clone()
+            st.ghost['materialised'] = True
+            return [(st, Obj('materialised_list'))]
+        return super().f_list(eng, st, args, kwargs, node)
+
+    f_tuple = f_list
+    f_sorted = f_list
+
     def f_yield_class_values_from_cache(self, eng, st, args, kwargs, node):
         return [(st, Obj('registry_values'))]
 
@@ -244,6 +278,7 @@ class ExtractSelected(LibModel):
         elif st.ghost['dom_case'] == 'single':
             ok = isinstance(src, Obj) and src.kind == 'from' and st.ghost['from']['domain'].kind == 'userdomain'
             eng.oblige(st, "C13/extract/single-value-domain-is-kept", z3.BoolVal(bool(ok)), case=tag)
+        eng.oblige(st, "C07/extract/the-supplied-iterable-is-not-consumed-here", z3.BoolVal(not st.ghost.get('materialised')), case=tag)
         pt = st.ghost.get('ptree_args')
         eng.oblige(st, "C13/extract/field-constraints-are-passed-on-unchanged",
                    z3.BoolVal(pt is not None and isinstance(pt[0], Obj) and pt[0].kind == 'variable'
